@@ -522,6 +522,23 @@ fn scan_parse_fraction_round9() {
     fraction_round_check(9);
 }
 
+/// blanks: exactly the maximal prefix of ASCII whitespace (space, tab, line feed, form feed, carriage return) is skipped -
+/// this is the contract the logged oracle `eat_whitespaces_oracle` stands for in the parser obligations
+#[kani::proof]
+#[kani::unwind(9)]
+fn scan_eat_whitespaces_bounded() {
+    let bytes: [u8; 6] = kani::any();
+    let len: usize = kani::any();
+    kani::assume(len <= 6);
+    let input = &bytes[..len];
+    let rest = eat_whitespaces(input);
+    let is_ws = |b: u8| b == b' ' || b == b'\t' || b == b'\n' || b == 0x0C || b == b'\r';
+    let mut k = 0;
+    while k < len && is_ws(bytes[k]) { k += 1; }
+    assert!(rest.len() == len - k);
+    assert!(rest.as_ptr() == unsafe { input.as_ptr().add(k) });
+}
+
 #[kani::proof]
 #[kani::unwind(8)]
 fn scan_week_day_number() {
